@@ -169,6 +169,19 @@ MUTATIONS = {
         ["C09", "C02"],
         [("flox/core.py", "                stop = i[-1] + 1\n", "                stop = i[-1] + (1 if len(i) < 3 else 0)\n")],
     ),
+    "optimal_chunks_off_by_one": (
+        ["C17"],
+        [("flox/core.py", "            newchunkidx.append(l + 1)\n", "            newchunkidx.append(l if l > newchunkidx[-1] + 1 else l + 1)\n")],
+    ),
+    "cohorts_ignore_oldbreaks_always": (
+        ["C17"],
+        [("flox/core.py", "if (not ignore_old_chunks and idx in oldbreaks) or (counter >= chunksize and not next_break_is_close):",
+          "if (not ignore_old_chunks and idx in oldbreaks and counter > 1) or (counter >= chunksize and not next_break_is_close):")],
+    ),
+    "xr_rechunk_no_copy": (
+        ["C17", "C14"],
+        [("flox/xarray.py", "    obj = obj.copy(deep=True)\n", "    obj = obj if isinstance(obj, xr.Dataset) else obj.copy(deep=True)\n")],
+    ),
     "nanmin_combine_min": (
         ["C04"],
         [("flox/aggregations.py", '    chunk="nanmin",\n    combine="nanmin",', '    chunk="nanmin",\n    combine="min",')],
